@@ -30,3 +30,49 @@ impl HashImplementation for XHash3 {
 pub fn x_holder(params: &TokenPredictorParameters, c: XChain) -> Box<dyn HashChainHolder> {
     Box::new(HashChainHolderImpl::<XHash3> { hash: c, params: *params, window_bytes: 1 << params.window_bits })
 }
+
+/// position-independent model chain for cross-build equivalence of ONE matcher query at an arbitrary cursor
+#[derive(Clone, Copy)]
+pub struct XChainFlat { pub dist: [[u32; 3]; 2], pub cnt: [u8; 2] }
+impl HashChain for XChainFlat {
+    fn iterate<'a>(&'a self, _input: &PreflateInput, offset: u32) -> impl Iterator<Item = u32> + 'a {
+        let row = self.dist[offset as usize];
+        let n = self.cnt[offset as usize] as usize;
+        let mut i = 0;
+        std::iter::from_fn(move || { if i < n { i += 1; Some(row[i - 1]) } else { None } })
+    }
+    fn update_hash(&mut self, _input: &[u8], _pos: u32, _length: u32) {}
+    fn checksum(&self, _c: &mut DebugHash) {}
+}
+#[derive(Default, Copy, Clone)]
+pub struct XHash3F {}
+impl HashImplementation for XHash3F {
+    type HashChainType = XChainFlat;
+    fn get_hash(&self, _b: &[u8]) -> u16 { 0 }
+    fn num_hash_bytes() -> usize { 3 }
+    fn new_hash_chain(self) -> XChainFlat { unreachable!() }
+    fn algorithm(&self) -> HashAlgorithm { HashAlgorithm::RandomVector }
+}
+fn flat_result(r: MatchResult) -> [u32; 3] {
+    match r {
+        MatchResult::Success(t) => [0, t.len(), t.dist()],
+        MatchResult::DistanceLargerThanHop0(a, b) => [1, a, b],
+        MatchResult::NoInput => [2, 0, 0],
+        MatchResult::NoMoreMatchesFound => [3, 0, 0],
+        MatchResult::MaxChainExceeded(a) => [4, a, 0],
+    }
+}
+/// one query of the real match search / hop counting at cursor `pos` over the given candidate lists:
+/// what = 0: match_token_offset::<0>, 1: match_token_offset::<1>, 2: calculate_hops(len = a, dist = b), 3: hop_match(len = a, hops = b)
+pub fn matcher_query(text: &[u8], pos: u32, pf: &[u32; 19], dist: &[[u32; 3]; 2], cnt: &[u8; 2], what: u8, a: u32, b: u32) -> [u32; 3] {
+    let params = crate::preflate_parameter_estimator::verif_export::from_flat(pf).predictor;
+    let h = HashChainHolderImpl::<XHash3F> { hash: XChainFlat { dist: *dist, cnt: *cnt }, params, window_bytes: 1 << params.window_bits };
+    let mut input = PreflateInput::new(text);
+    input.advance(pos);
+    match what {
+        0 => flat_result(h.match_token_offset::<0>(a, b, &input)),
+        1 => flat_result(h.match_token_offset::<1>(a, b, &input)),
+        2 => { let r = h.calculate_hops(&PreflateTokenReference::new(a, b, false), &input); let o = match &r { Ok(v) => [0, *v, 0], Err(_) => [9, 0, 0] }; core::mem::forget(r); o }
+        _ => { let r = h.hop_match(a, b, &input); let o = match &r { Ok(v) => [0, *v, 0], Err(_) => [9, 0, 0] }; core::mem::forget(r); o }
+    }
+}
